@@ -44,6 +44,11 @@ func Load(opts *LoaderOptions) (*types.Project, error) {
 	if err != nil {
 		return nil, err
 	}
+	// the default must not take part in the merge: a file that does not mention
+	// log_length would override the value of an earlier file with it
+	if mergedProject.LogLength == 0 {
+		mergedProject.LogLength = defaultLogLength
+	}
 	mergedProject.FileNames = opts.FileNames
 	mergedProject.EnvFileNames = opts.EnvFileNames
 	mergedProject.IsTuiDisabled = opts.isTuiDisabled || mergedProject.IsTuiDisabled
@@ -141,9 +146,7 @@ func loadProjectFromFile(inputFile string, opts *LoaderOptions) (*types.Project,
 	temp = os.ExpandEnv(temp)
 	temp = strings.ReplaceAll(temp, envEscaped, "$")
 
-	project := &types.Project{
-		LogLength: defaultLogLength,
-	}
+	project := &types.Project{}
 	err = yaml.Unmarshal([]byte(temp), project)
 	if err != nil {
 		if opts.IsInternalLoader {
